@@ -197,11 +197,11 @@ def _explore(run, tier, sess, thunk, fq, prefix, known_hyp=None, allow_raise=Fal
 
 
 # ------------------------------------------------------------------------------ parse / parse_v2
-def verify_parse_v2(run, tier, wf=True):
+def verify_parse_v2(run, tier, wf=True, prefix=None, only=None):
     sess = Session()
     it = sess.it
     fq = MOD + ':KdBufParser.parse_v2'
-    prefix = 'C02/parse_v2' if wf else 'C06/parse_v2'
+    prefix = prefix or ('C02/parse_v2' if wf else 'C06/parse_v2')
     it.contracts['pykdebugparser.kevent:from_kd_buf'] = from_kd_buf_contract
     stm = {}
 
@@ -268,7 +268,9 @@ def verify_parse_v2(run, tier, wf=True):
             state['m'] = m
             # known finding (see known_findings.json): the greedy zero padding swallows leading zero bytes of the
             # first record.  The obligation is proved for every dump outside that class.
-            if state.get('exclude_known', True) and run.known_for('C02/parse_v2/header.ends-at-the-first-record'):
+            from pyvc.report import load_known
+            open_c02 = [k for k in load_known('C02') if k.get('status') != 'fixed' and 'header.ends-at-the-first-record' in k['obligation']]
+            if state.get('exclude_known', True) and open_c02:
                 ctx.assume(z3.Or(m == 0, f.byte(state['base']) != 0))
         else:
             # arbitrary bytes after a version-2 magic (the version-3 path is verified separately)
@@ -295,7 +297,7 @@ def verify_parse_v2(run, tier, wf=True):
                     zi(e.fields['tid']) == f.le(HDR + ENTRY * q, 8), zi(e.fields['pid']) == f.le(HDR + ENTRY * q + 8, 4),
                     e.fields['process'].toks[0][1] == CP.CStrOf(f.F, HDR + ENTRY * q + NAME_OFF, z3.IntVal(20))))
         return None
-    _explore(run, tier, sess, thunk, fq, prefix, allow_raise=not wf)
+    _explore(run, tier, sess, thunk, fq, prefix, allow_raise=not wf, only=only)
 
 
 def run_check(run, tier):
